@@ -146,6 +146,10 @@ def run_once(chk, binp, scenario, n, rng):
         latched_before = host.latched
         kp2 = keeper.Keeper(binp, sd=sd, key_dir=key_dir, interval_ms=15)
         try:
+            # the restarted agent has run its start-up section and waits for its first status answer: nothing it did on the way may
+            # have put a partial file under a final name
+            kp2.wait_at_gate()
+            check_dir(chk, key_dir, host, dict(desc, after="restart, before the first poll"))
             base = len(kp2.calls)
             final = None
             for it in range(4):
